@@ -210,9 +210,33 @@ def check_events(case):
             except Exception as e:  # noqa
                 f = lib_exception_failure(e, f"process_message:{it['spec']['kind']}")
                 raise Failure(f.sig, f"message {pos} {it['spec']}: {f.msg}")
+            view_before = ref.view()
             ref_events = ref.apply(it["spec"])
             is_def = it["spec"]["kind"].startswith("def")
             req, opt = split_expected(ref_events, is_def, state_before)
+            # an update the client may or may not take (BLOB whose declared size contradicts its payload): its event is optional
+            # ... but it must agree with what the client did: taken => announced, left alone => no event
+            lv = refclient.library_view(client)
+            if ref.ambiguous:
+                labels.add("blob-size-contradicts-payload")
+            for t in list(req):
+                if t[0] == "value" and (t[1], t[2], t[3]) in ref.ambiguous:
+                    n_ev = req.pop(t)
+                    def _nbv(v):  # the views' normal form: no BLOB == empty payload
+                        return None if (v is None or len(v[0]) == 0) else (v[0], v[1])
+
+                    before = view_before.get(t[1], {}).get(t[2], (None, None, None, None, {}))[4].get(t[3], (None, None))[1]
+                    try:
+                        now = lv[t[1]][t[2]][4][t[3]][1]
+                    except (KeyError, IndexError, TypeError):
+                        now = None
+                    taken = now == _nbv(t[5])
+                    if before == _nbv(t[5]):
+                        opt[t] += n_ev  # cannot tell the two outcomes apart
+                    elif taken:
+                        req[t] += n_ev
+                    # else: left alone - an event announcing the new value would be a lie (it is neither required nor optional)
+            ref.resolve(lv)
             got = Counter(normalize_got(e) for e in probe_log)
             missing = req - got
             extra = got - req - opt
